@@ -198,6 +198,8 @@ func (mpt *MerklePatriciaTrie) Insert(path Path, value MPTSerializable) (Key, er
 	}
 
 	valueCopy := &SecureSerializableValue{eval}
+	// nodes keep sub-slices of the path: they must not alias a buffer the caller may reuse
+	path = concat(path)
 	mpt.mutex.Lock()
 	defer mpt.mutex.Unlock()
 	var newRootHash Key
@@ -215,6 +217,8 @@ func (mpt *MerklePatriciaTrie) Insert(path Path, value MPTSerializable) (Key, er
 
 /*Delete - delete a value from the trie */
 func (mpt *MerklePatriciaTrie) Delete(path Path) (Key, error) {
+	// nodes keep sub-slices of the path: they must not alias a buffer the caller may reuse
+	path = concat(path)
 	mpt.mutex.Lock()
 	defer mpt.mutex.Unlock()
 
